@@ -120,3 +120,26 @@ class Ctx:
 def split_range(total, shard, nshards):
     """Indices of `range(total)` handled by this shard (round robin)."""
     return range(shard, total, nshards)
+
+
+class CaseTimeout(Exception):
+    pass
+
+
+import contextlib
+import signal
+
+
+@contextlib.contextmanager
+def time_limit(seconds):
+    """Generous per-case wall-clock watchdog (its firing is never a verdict by itself)."""
+    def handler(signum, frame):
+        raise CaseTimeout(f"case exceeded {seconds}s")
+
+    old = signal.signal(signal.SIGALRM, handler)
+    signal.setitimer(signal.ITIMER_REAL, seconds)
+    try:
+        yield
+    finally:
+        signal.setitimer(signal.ITIMER_REAL, 0)
+        signal.signal(signal.SIGALRM, old)
